@@ -97,9 +97,15 @@ Keeps(r) == KeepAsked(r) /\ ~Panics(r)
 
 \* What a client may observe instead of the demanded response record `e`.  For 400 and 408 the
 \* property only fixes the status (and the close), see DESIGN 5a.
-Matches(obs, e) == /\ obs.st = e.st
-                   /\ \/ e.st \in {400, 408}
-                      \/ obs = e
+\* Where the statement leaves freedom the observation is free too: the wording (hence the length) of the
+\* 404 page, provided the body is as long as its Content-Length; whether the empty answer to a routed OPTIONS is a
+\* 204 or a 200 and whether it spells out Content-Length: 0 (either way it is self-delimiting).
+Matches(obs, e) == \/ obs.st = e.st /\ e.st \in {400, 408}
+                   \/ obs = e
+                   \/ /\ e.st = 404 /\ obs.st = 404 /\ e.cl = e.blen
+                      /\ obs.cl = obs.blen /\ [obs EXCEPT !.cl = e.cl, !.blen = e.blen] = e
+                   \/ /\ e.st = 204 /\ obs.st \in {200, 204} /\ obs.cl \in {-1, 0}
+                      /\ [obs EXCEPT !.st = 204, !.cl = -1] = e
 
 RECURSIVE ExpFrom(_, _)
 ExpFrom(s, i) ==
